@@ -23,8 +23,8 @@ import (
 	"github.com/flamego/flamego/verifharness/internal/rt"
 )
 
-const rule = "round = an application with 0..7 separately added middleware, routes of every kind (static via the shortcut, optional static, regex with user groups, placeholder, match-all with capture, header-constrained, named routes whose handlers build URLs, Recovery and Renderer middleware, a route that renders JSON through the request-scoped Render service, a route whose handler panics, a middleware that maps a per-request token read from a header, handlers that receive it by type and an application service through an interface it implements), built twice: instance A serves every distinct request alone (expected responses), instance B is fresh (nothing lazily cached yet) and is hit by 2..16 goroutines released together, each with its own list of 5..40 requests and runtime.Gosched() yields inside the handlers, under GOMAXPROCS in {2,4,16}. " +
-	"Oracle: (1) every concurrent response (status and body = route marker + echoed parameters + token + built URL) equals A's response for the same request; (2) the Go race detector reports nothing (binary built with -race, GORACE=halt_on_error=1; the driver turns a report into a violation). " +
+const rule = "round = an application with 0..7 separately added middleware, routes of every kind (static via the shortcut, optional static, regex with user groups, placeholder, match-all with capture, header-constrained, named routes whose handlers build URLs, Recovery and Renderer middleware, a route that renders JSON through the request-scoped Render service, a route whose handler panics, a middleware that maps a per-request token read from a header, handlers that receive it by type and an application service through an interface it implements; some requests make the route's first handler note the token in the request's own parameter map, some are not-found after a partial match; expected responses = every distinct request served alone by an instance that has served nothing else; instance B is fresh (nothing lazily cached yet) and is hit by 2..16 goroutines released together, each with its own list of 5..40 requests and runtime.Gosched() yields inside the handlers, under GOMAXPROCS in {2,4,16}. " +
+	"Oracle: (1) every concurrent response (status and body = route marker + echoed parameters + token + built URL) equals the response to the same request served alone; (2) the Go race detector reports nothing (binary built with -race, GORACE=halt_on_error=1; the driver turns a report into a violation). " +
 	"non-trivial = a round in which >= 2 goroutines start with the same dynamic named route (the first use of lazily cached state is contended) and >= 3 kinds of route are hit; distinct by round text"
 
 var assumptions = []string{
@@ -44,6 +44,9 @@ type Req struct {
 	P     string `json:"p"`
 	Token string `json:"token"`
 	Hdr   string `json:"hdr,omitempty"` // value of X-Api (header-constrained routes)
+	// Scratch: the first handler of the route notes the request's token in the
+	// request's own parameter map (Params() hands out the map of this request).
+	Scratch bool `json:"scratch,omitempty"`
 }
 
 type Round struct {
@@ -80,7 +83,12 @@ func build(r Round) *flamego.Flame {
 		}
 	}
 	echo := func(marker, urlName string) []flamego.Handler {
-		pre := func(c flamego.Context) { yield() }
+		pre := func(c flamego.Context, t *token) {
+			if c.Request().Header.Get("X-Scratch") != "" {
+				c.Params()["scratch"] = t.v
+			}
+			yield()
+		}
 		main := func(c flamego.Context, t *token, n namer) string {
 			yield()
 			ps := c.Params()
@@ -153,6 +161,9 @@ func serve(f *flamego.Flame, q Req) resp {
 	if q.Hdr != "" {
 		h.Set("X-Api", q.Hdr)
 	}
+	if q.Scratch {
+		h.Set("X-Scratch", "1")
+	}
 	spy := rt.NewSpy()
 	f.ServeHTTP(spy, rt.NewRequest(q.M, q.P, h))
 	return resp{spy.Status(), string(spy.Body)}
@@ -170,10 +181,12 @@ func checkRound(r Round) (out evid.Outcome) {
 	defer runtime.GOMAXPROCS(old)
 	flamego.SetEnv(flamego.EnvTypeProd) // the recovery page is then the same for every panic
 	defer flamego.SetEnv(flamego.EnvTypeDev)
-	a, b := build(r), build(r)
+	// expected: every distinct request served alone, by an instance that has
+	// served nothing else (so nothing an earlier request left behind can taint it)
+	b := build(r)
 	want := make([]resp, len(r.Pool))
 	for i, q := range r.Pool {
-		want[i] = serve(a, q)
+		want[i] = serve(build(r), q)
 	}
 	type bad struct {
 		g, i int
@@ -287,9 +300,13 @@ func genReq(t *rapid.T, n int) Req {
 		q.P = []string{"/nosuch/", "/render/", "/render/", "/panic/"}[rapid.IntRange(0, 3).Draw(t, "rp")] + s()
 	case 13:
 		q.P = "//users//" + s()
+	case 14:
+		// not found after part of the path was matched (and captured) on the way
+		q.P = []string{"/users/" + s() + "/extra", "/members/" + s() + "/" + s() + "/more", "/multi/" + s() + "/x", "/files/" + s() + "/a/b/c/d/raw", "/g/" + s() + "/r", "/posts/2021-" + s()}[rapid.IntRange(0, 5).Draw(t, "pm")]
 	default:
 		q.P = "/users/" + s()
 	}
+	q.Scratch = rapid.IntRange(0, 3).Draw(t, "scratch") == 0
 	return q
 }
 
